@@ -12,7 +12,8 @@ THEOREMS = ['PyDBML.C07.accepts_only_whole_input', 'PyDBML.C07.stringEnd_ok', 'P
             'PyDBML.Fuel.many_fuel_irrelevant', 'PyDBML.Fuel.manyF_any_fuel', 'PyDBML.Fuel.document_fuel_irrelevant']
 MODULES = ['PyDBMLProofs.Props.C07', 'PyDBMLProofs.Fuel']
 
-FAULTS = ['col_no_type', 'unknown_setting', 'unknown_index_type', 'bad_operator', 'bad_action', 'bad_colour', 'prop_when_off']
+FAULTS = ['col_no_type', 'unknown_setting', 'unknown_index_type', 'bad_operator', 'bad_action', 'bad_colour', 'prop_when_off',
+          'stray_after_column']
 BRACKETS = ['{', '}', '[', ']', '(', ')']
 GARBAGE = ['x', '}', ']', ')', '{', 'Table', 'Table t', 'ref', ':', ',', "'unterminated", '"', '`', '#fff', '1', '.', '-', '>',
            'note:', '[pk]', 'indexes', 'as', '*/', '\\', '\x0c', ' x', 'é', '\x00']
@@ -173,7 +174,7 @@ def main(tier, seed):
         drv.close()
     return ctx.finish(
         rule='(a) grammar faults injected by the speller at the k-th opportunity: column without type, unknown setting, unknown '
-             'index type, bad relation operator, bad action, malformed colour; (b) every structural bracket deleted, brackets '
+             'index type, bad relation operator, bad action, malformed colour, a property line with the option off, words after a column definition on its line; (b) every structural bracket deleted, brackets '
              'inserted at 40 random token boundaries; (c) 30 kinds of trailing garbage, unterminated last string; each on valid '
              'spelled documents (checked); (d) random token/character mutants of corpus and spelled documents and token soups '
              '(verdict correspondence). Distinct by text hash; every case differs from its valid source',
